@@ -24,26 +24,38 @@ RULE = ('payloads over an alphabet with the special bytes # $ } * \' + - (and th
         'LTS traces = random interleavings of send / receive-byte / get / timeout / put-timeout labels. '
         'distinct non-trivial = distinct case whose implementation outcome is not "nothing happened" '
         '(a message delivered, a reply written, an ack queued, a retransmission or an exception)')
-EXPLANATION = ('Coq theorems over Model.Rsp: framing round trip for every ASCII payload and every chunking, '
-               'checksum NAK, NAK->retransmission, retry budget for every ack sequence and every schedule, '
-               'receiver invariant + no-loss/no-duplication over all traces of the LTS (unbounded, by induction). '
-               'Positive theorems hold for model configurations containing the corresponding fix; *_refuted '
-               'theorems are witnesses on the configuration `orig` (ppci 1a712d0). Not modelled: OS thread '
-               'scheduling (threads = interleavings of atomic LTS steps; the sender step "get, decide, send" is '
-               'atomic), queue.Queue internals, real time (timeouts are nondeterministic labels), sockets, '
-               'run-length encoding of received packets (not implemented by ppci), non-ASCII payloads '
-               '(send raises UnicodeEncodeError; modelled as outcome EncodeErr). Receiver-thread death '
-               '(queue.Full after a second unconsumed ack, UnicodeDecodeError on a non-ASCII byte inside a packet) '
-               'is modelled (state `dead`) but no theorem excludes it: liveness is not claimed.')
+EXPLANATION = ('Coq theorems over Model.Rsp (29): framing round trip for every payload and every chunking, checksum NAK, '
+               'NAK->retransmission, retry budget for every ack sequence and every schedule (also retries <= 0), receiver '
+               'invariant + no-loss/no-duplication over all traces of the LTS (unbounded, by induction); second round: '
+               'the receiver thread never dies on any byte stream (all byte values) under any schedule, stray acks are '
+               'harmless, a delivered packet had two hex check digits, every packet-shaped string that is not a well-formed '
+               'packet is NAKed, and the framing / no-loss theorems for arbitrary byte values. The model has one switch per '
+               'repair; each positive theorem is stated for all configurations containing the repairs it needs, *_refuted '
+               'theorems show on the configuration lacking exactly that repair that it is necessary. The first three '
+               'repairs are in /repo; the four second-round repairs (fixes/C35-ack-queue-full, -stale-ack, -decoder-non-ascii, '
+               '-checksum-digits .diff) are probed on the implementation on every run: the correspondence uses the model '
+               'configuration the implementation actually has, and a missing repair is reported through its witness '
+               '(KNOWN-FINDING while known_findings.json lists it as known, VIOLATION otherwise). What the code supports: '
+               'the sender is ASCII-only by design (send() encodes "ascii"; client.py sends hex-encoded commands only, no '
+               'X / vFile packets; a non-ASCII payload raises UnicodeEncodeError before anything is transmitted = outcome '
+               'EncodeErr); the receiver is binary-transparent once the latin-1 repair is applied. Not modelled: OS thread '
+               'scheduling (threads = interleavings of atomic LTS steps; the sender step "get, decide, send" is atomic), '
+               'queue.Queue internals, real time (timeouts are nondeterministic labels), sockets / transport.send failures, '
+               'on_message raising, run-length encoding of received packets (not implemented by ppci). Residual protocol '
+               'limitation (not a code defect): acks carry no sequence number, so an ack that arrives after the '
+               'transmission is attributed to it whatever the peer meant.')
 TRUSTED = ['hand model coq/Model/Rsp.v == ppci/binutils/dbg/gdb/rsp.py (checked on every run by the correspondence: '
-           'rsp_pack, rsp_unpack, per-byte receiver events, sendpkt vs ack sequences, LTS traces)',
-           'the replay harness: FakeTransport, a non-blocking queue.Queue subclass installed as _ack_queue, '
+           'rsp_pack, rsp_unpack, per-byte receiver events, sendpkt vs ack sequences, LTS traces; the model configuration '
+           'is selected by probing the four optional repairs with their witnesses)',
+           'the replay harness: FakeTransport, queue.Queue subclasses installed as _ack_queue, '
            'single-threaded replay of interleavings at the blocking points (get / put)',
-           'CPython: str.replace, int(s, 16) on two ASCII characters (checked exhaustively per run), '
-           'bytes.decode("ascii"), f"{x:02X}"',
+           'CPython: str.replace, int(s, 16) on two characters 0..255 (checked exhaustively per run), '
+           'bytes.decode("ascii" / "latin-1"), f"{x:02X}"',
            'reading of the RSP spec in coq/Spec/RspSpec.v']
-ASSUMPTIONS = ['payloads and received bytes are ASCII (0..127) in the positive theorems',
-               'transport hands single bytes to on_byte (TCP.recv(1))',
+ASSUMPTIONS = ['first-round theorems: payloads and received bytes are ASCII (0..127); second-round (*_bytes, '
+               'c35_receiver_never_dies): no restriction on byte values, given the latin-1 repair',
+               'transport hands single bytes to on_byte (TCP.recv(1)); on_message is set and does not raise; transport.send '
+               'does not raise',
                'atomicity of LTS steps (see EXPLANATION)']
 
 SRC = 'ppci/binutils/dbg/gdb/rsp.py'
@@ -159,6 +171,12 @@ def impl_acks_run(rsp, retries, acks):
         def put(self, item, block=True, timeout=None):
             raise AssertionError('unexpected put')
 
+        def empty(self):
+            return True          # the scripted items arrive after the transmission
+
+        def get_nowait(self):
+            raise queue.Empty()
+
     h._ack_queue = Q()
 
     def hook(data):
@@ -176,6 +194,76 @@ def impl_acks_run(rsp, retries, acks):
     except ValueError:
         code = 1
     return [code, count[0]]
+
+
+# ------------------------------------------------------------------ which repairs does the implementation contain?
+class _ProbeQueue(queue.Queue):
+    def put(self, item, block=True, timeout=None):
+        if self.full():
+            if block:
+                raise _WouldBlock(item)
+            raise queue.Full()
+        queue.Queue.put(self, item, block=False)
+
+
+W_FULL = [43, 43]
+W_STALE = [['recv', 43], ['send', [115], 10], ['get']]
+W_DEC = [36, 97, 128, 35, 69, 49]
+W_HEX = [36, 5, 35, 32, 53]
+
+
+def probe_full(rsp):
+    """two acknowledgements, nobody waiting: does _process_byte block (and finally raise queue.Full)?"""
+    t = FakeTransport()
+    h = rsp.RspHandler(t)
+    h.on_message = lambda m: None
+    h._ack_queue = _ProbeQueue(maxsize=1)
+    try:
+        for b in W_FULL:
+            h._process_byte(bytes([b]))
+        return True, 'no exception'
+    except _WouldBlock:
+        return False, '_ack_queue.put blocks on the full queue (0.5 s, then queue.Full ends the receiver thread)'
+    except Exception as ex:   # noqa: BLE001
+        return False, repr(ex)
+
+
+def probe_stale(rsp):
+    obs = Harness(rsp, [tuple(l) for l in W_STALE]).run()
+    return obs[2] != [0], {'results': obs[2], 'waiting': obs[3]}
+
+
+def probe_dec(rsp):
+    d, out, acks, exc = impl_receive(rsp, [W_DEC])
+    return exc is None and d == [[97, 128]] and out == [0x2b], {'delivered': d, 'replies': out, 'exception': exc}
+
+
+def probe_hex(rsp):
+    d, out, acks, exc = impl_receive(rsp, [W_HEX])
+    return d == [] and out == [0x2d], {'delivered': d, 'replies': out, 'exception': exc}
+
+
+def probe_config(ctx, rsp):
+    """the four second-round repairs are optional: the model configuration follows the implementation, a missing
+    repair is reported (known finding keyed by its witness while known_findings.json lists it as known)"""
+    flags = {}
+    for name, fn, args, thm, expected in (
+            ('full', probe_full, [W_FULL], 'c35_receiver_dies_queue_full_refuted', 'the surplus ack is dropped, no exception'),
+            ('stale', probe_stale, [W_STALE], 'c35_stray_ack_refuted', 'sendpkt still waits: the "+" arrived before the send'),
+            ('dec', probe_dec, [W_DEC], 'c35_receiver_dies_non_ascii_refuted', 'packet delivered (checksum matches), no exception'),
+            ('hex', probe_hex, [W_HEX], 'c35_checksum_digits_refuted', 'negative acknowledgement: " 5" are not two hex digits')):
+        ok, actual = fn(rsp)
+        flags[name] = bool(ok)
+        if not ok:
+            ctx.violation({'fn': 'witness_' + name, 'args': args, 'theorem': thm, 'expected': expected, 'actual': actual,
+                           'how_to_replay': 'cd /verif && ./check C35 --replay <this file>'})
+    ctx.cov['stages']['implementation_configuration'] = dict(flags, nak=True, esc=True, retry=True)
+    return flags
+
+
+def cfg_term(flags):
+    b = lambda x: 'true' if x else 'false'   # noqa: E731
+    return '(Build_cfg true true true %s %s %s %s)' % (b(flags['full']), b(flags['stale']), b(flags['dec']), b(flags['hex']))
 
 
 # ------------------------------------------------------------------ LTS trace replay
@@ -196,10 +284,18 @@ class _SQueue(queue.Queue):
 
     def put(self, item, block=True, timeout=None):
         if self.full():
+            if not block:
+                raise queue.Full()
             raise _WouldBlock(item)     # the real put would block here (up to 0.5 s)
         queue.Queue.put(self, item, block=False)
 
     def get(self, block=True, timeout=None):
+        if not block:                   # get_nowait (drain of stale acks): frees the slot, a blocked
+            item = queue.Queue.get(self, block=False)    # producer completes at once
+            if self.h.blk is not None:
+                queue.Queue.put(self, self.h.blk, block=False)
+                self.h.blk = None
+            return item
         return self.h.sender_wait()     # the real get blocks here: let the schedule continue
 
 
@@ -359,7 +455,16 @@ def impl_receive(rsp, chunks):
         def put(self, item, block=True, timeout=None):
             acks.append(ord(item))
 
+        def put_nowait(self, item):
+            acks.append(ord(item))
+
         def get(self, block=True, timeout=None):
+            raise queue.Empty()
+
+        def empty(self):
+            return True
+
+        def get_nowait(self):
             raise queue.Empty()
     h._ack_queue = Q()
     try:
@@ -472,8 +577,11 @@ def gen_stream(rng, rsp_pack):
         elif r < 0.9:
             parts.append([rng.choice([0, 97, 35, 39, 125, 200, 255, 10])])
         elif r < 0.95:
-            fr = rsp_pack(gen_payload(rng, 4))
-            fr.insert(rng.randrange(1, len(fr)), rng.choice([128, 200, 255]))   # non-ASCII inside a packet
+            if rng.random() < 0.5:
+                fr = rsp_pack(gen_payload(rng, 4))
+                fr.insert(rng.randrange(1, len(fr)), rng.choice([128, 200, 255]))   # non-ASCII inside a packet
+            else:                                                                     # ... with a matching checksum
+                fr = rsp_pack(gen_payload(rng, 3) + [rng.choice([128, 133, 160, 200, 253, 255])])
             parts.append(fr)
         else:
             parts.append([36, 35] + s2l('00') + [36, 39, 35, 50, 55])
@@ -490,7 +598,7 @@ def gen_trace(rng, pack):
         elif r < 0.45:
             tr.append(('recv', rng.choice([43, 45, 43, 45, 97, 0])))
         elif r < 0.6:
-            fr = pack(gen_payload(rng, 3))
+            fr = pack(gen_payload(rng, 3) + ([rng.choice([128, 200, 255])] if rng.random() < 0.15 else []))
             if rng.random() < 0.3:
                 fr = corrupt(rng, fr)
             tr += [('recv', b) for b in fr]
@@ -504,13 +612,15 @@ def gen_trace(rng, pack):
 
 
 # ------------------------------------------------------------------ search: implementation vs oracle
-def search_impl(ctx, rsp, deep):
+def search_impl(ctx, rsp, deep, flags=None):
     """returns the number of evaluations; reports violations with replay information"""
     rng = ctx.rng
     n_eval = 0
     pool = payload_pool(rng, 400 if deep else 120)
     budget = {'frame_roundtrip': 3, 'bad_checksum': 3, 'nak_retransmit': 2, 'retry_budget': 2,
-              'witness_quote_terminator': 1, 'witness_unescape': 1, 'witness_nak_dropped': 1, 'witness_last_retry': 1}
+              'witness_quote_terminator': 1, 'witness_unescape': 1, 'witness_nak_dropped': 1, 'witness_last_retry': 1,
+              'receiver_survival': 2, 'stray_ack': 2}
+    flags = flags or {'full': False, 'stale': False, 'dec': False, 'hex': False}
 
     def report(fn, rec):
         if budget[fn] <= 0:
@@ -569,10 +679,15 @@ def search_impl(ctx, rsp, deep):
         items = []
         for _ in range(rng.randrange(1, 4)):
             p = gen_payload(rng, 6)
+            if flags['dec'] and rng.random() < 0.4:       # binary-transparent receiver: any byte value
+                p = [rng.choice([128, 133, 160, 200, 253, 255, 0x85 ^ 0x20]) if rng.random() < 0.5 else c for c in p + [255]]
             f = ref_frame(p)
             if rng.random() < 0.35:
                 v = (int(l2s(f[-2:]), 16) + rng.randrange(1, 256)) % 256
                 f[-2:] = s2l(('%02x' if rng.random() < 0.5 else '%02X') % v)
+            elif flags['hex'] and f[-2] == 48 and rng.random() < 0.5:
+                # check digits "0d" corrupted into white space / sign + d: int() would still give the checksum
+                f[-2] = rng.choice([32, 43, 9, 10, 13] + ([133, 160] if flags['dec'] else []))
             items.append(f)
             if rng.random() < 0.3:
                 items.append([rng.choice([43, 45])])
@@ -622,6 +737,41 @@ def search_impl(ctx, rsp, deep):
                 report('retry_budget', dict(rec, expected='acked: only %d NAKs with retries=%d' % (k, retries)))
             elif code != 0 and sent == k + 1:
                 report('retry_budget', dict(rec, expected='the last transmission was answered "+": must not fail'))
+    # 5. repairs of the second round, searched only once the implementation contains them (before that the
+    #    witness is reported by probe_config)
+    if flags['full']:
+        for _ in range(60 if deep else 20):
+            stream = []
+            for _ in range(rng.randrange(1, 4)):
+                stream += [rng.choice([43, 45]) for _ in range(rng.randrange(1, 5))]
+                stream += ref_frame(gen_payload(rng, 4))
+            d_ref, r_ref, _ = ref_receive(stream)
+            t = FakeTransport()
+            h = rsp.RspHandler(t)
+            got = []
+            h.on_message = lambda m: got.append(s2l(m))
+            h._ack_queue = _ProbeQueue(maxsize=1)
+            exc = None
+            n_eval += 1
+            try:
+                for b in stream:
+                    t.on_byte(bytes([b]))
+            except BaseException as ex:   # noqa: BLE001
+                exc = type(ex).__name__
+            if exc or got != d_ref or list(t.out) != r_ref:
+                report('receiver_survival', {'args': [stream], 'what': 'acknowledgements nobody waits for, then packets',
+                                             'expected': {'delivered': d_ref, 'replies': r_ref, 'exception': None},
+                                             'actual': {'delivered': got, 'replies': list(t.out), 'exception': exc}})
+    if flags['stale']:
+        for _ in range(40 if deep else 15):
+            tr = [('recv', rng.choice([43, 45])) for _ in range(rng.randrange(1, 4))]
+            tr += [('send', [115], rng.choice([1, 3, 10])), ('get',)]
+            n_eval += 1
+            obs = Harness(rsp, tr).run()
+            if obs[2] or obs[3] != [1] or obs[0] != s2l('$s#73'):
+                report('stray_ack', {'args': [[list(l) for l in tr]], 'what': 'acks received before the send must not complete it',
+                                     'expected': {'results': [], 'waiting': [1], 'out': s2l('$s#73')},
+                                     'actual': {'results': obs[2], 'waiting': obs[3], 'out': obs[0]}})
     ctx.cov['stages']['oracle_search'] = n_eval
     ctx.cov['evaluations'] += n_eval
     return n_eval
@@ -629,7 +779,7 @@ def search_impl(ctx, rsp, deep):
 
 def search(ctx):
     rsp = load_impl()
-    search_impl(ctx, rsp, True)
+    search_impl(ctx, rsp, True, probe_config(ctx, rsp))
 
 
 # ------------------------------------------------------------------ replay of a stored violation
@@ -637,7 +787,14 @@ def replay(rec):
     rsp = load_impl()
     fn = rec.get('fn')
     print('replaying %s on %s' % (fn, os.path.abspath(rsp.__file__)))
-    if len(rec['args']) == 2:
+    if fn in ('witness_full', 'witness_stale', 'witness_dec', 'witness_hex'):
+        ok, actual = {'witness_full': probe_full, 'witness_stale': probe_stale, 'witness_dec': probe_dec,
+                      'witness_hex': probe_hex}[fn](rsp)
+        actual = {'repaired': bool(ok), 'observed': actual}
+    elif fn == 'stray_ack':
+        obs = Harness(rsp, [tuple(l) for l in rec['args'][0]]).run()
+        actual = {'results': obs[2], 'waiting': obs[3], 'out': obs[0]}
+    elif len(rec['args']) == 2:
         code, sent = impl_acks_run(rsp, rec['args'][0], rec['args'][1])
         actual = {'outcome_code': code, 'transmissions': sent}
     elif len(rec['args']) == 1:
@@ -670,10 +827,12 @@ def run(ctx):
     regen(ctx)
     rsp = load_impl()
     rng = ctx.rng
-    ok, _ = ctx.build(['Proofs/C35_frame.vo', 'Proofs/C35_lts.vo'])
+    ok, _ = ctx.build(['Proofs/C35_frame.vo', 'Proofs/C35_lts.vo', 'Proofs/C35_live.vo'])
     if ok:
         ctx.check_props('Props/C35.v')
     nontriv = 0
+    flags = probe_config(ctx, rsp)
+    CF = cfg_term(flags)
     if ctx.build(['Model/Rsp.vo', 'Lib/Val.vo'])[0]:
         scale = 1 if ctx.quick() else 4
         cases, recs = [], []
@@ -689,20 +848,22 @@ def run(ctx):
             return s2l(rsp.RspHandler.rsp_pack(l2s(p)))
         # rsp_unpack
         upool = [[], [97], [36], [36, 35], [36, 35, 48], [36, 35, 48, 48], [35, 48, 48], [36, 97, 48, 48],
-                 s2l('$abc#26'), s2l('$abc#20'), s2l('a')]
+                 s2l('$abc#26'), s2l('$abc#20'), s2l('a'), [36, 5, 35, 32, 53], [36, 5, 35, 133, 53], [36, 5, 35, 53, 160],
+                 [36, 5, 35, 43, 53], [36, 200, 35, 67, 56], [36, 200, 125, 35, 52, 53], [36, 125, 200, 35, 52, 53],
+                 [36, 255, 255, 35, 70, 69], [36, 178, 35, 178, 178]]
         for p in pool[:200 * scale]:
             f = model_pack(p)
             upool.append(f)
             upool.append(corrupt(rng, f))
         for pkt in upool:
             out = impl_unpack(rsp, pkt)
-            cases.append(('rsp_unpack fixed %s' % to_term(pkt), out))
+            cases.append(('rsp_unpack %s %s' % (CF, to_term(pkt)), out))
             recs.append(('rsp_unpack', pkt, out))
             nontriv += 1 if isinstance(out, OkV) and out.v else 0
-        # int(s, 16) on every pair of ASCII characters
+        # int(s, 16) on every pair of characters 0..255
         table = []
-        for a in range(128):
-            for b in range(128):
+        for a in range(256):
+            for b in range(256):
                 try:
                     table.append([a, b, int(chr(a) + chr(b), 16)])
                 except ValueError:
@@ -714,7 +875,7 @@ def run(ctx):
         streams += [gen_stream(rng, model_pack) for _ in range(350 * scale)]
         for s in streams:
             evs = impl_rx_events(rsp, s)
-            cases.append(('rx_codes fixed %s' % to_term(s), evs))
+            cases.append(('rx_codes %s %s' % (CF, to_term(s)), evs))
             recs.append(('rx_events', s, evs))
             nontriv += 1 if any(e != [0] for e in evs) else 0
         # sendpkt against ack sequences
@@ -724,7 +885,7 @@ def run(ctx):
                 if rng.random() < 0.5:
                     acks = [45] * rng.randrange(0, max(retries, 0) + 3) + [43]
                 out = impl_acks_run(rsp, retries, acks)
-                cases.append(('acks_obs fixed %s %s' % ('(%d)' % retries, to_term(acks)), out))
+                cases.append(('acks_obs %s %s %s' % (CF, '(%d)' % retries, to_term(acks)), out))
                 recs.append(('sendpkt_acks', [retries, acks], out))
                 nontriv += 1 if out[1] > 1 or out[0] > 0 else 0
         # LTS traces
@@ -736,7 +897,7 @@ def run(ctx):
         traces += [gen_trace(rng, model_pack) for _ in range(500 * scale)]
         for tr in traces:
             obs = Harness(rsp, tr).run()
-            cases.append(('observe (run fixed init [%s])' % '; '.join(label_term(l) for l in tr), obs))
+            cases.append(('observe (run %s init [%s])' % (CF, '; '.join(label_term(l) for l in tr)), obs))
             recs.append(('lts_trace', [list(l) for l in tr], obs))
             nontriv += 1 if obs[0] or obs[2] else 0
         dist = {}
@@ -753,28 +914,34 @@ def run(ctx):
                 kinds.setdefault(recs[i][0], []).append(i)
             for k, idxs in kinds.items():
                 i = idxs[0]
-                ctx.log('model(fixed)/implementation disagree on %d %s case(s), first input: %r impl=%r' % (
+                ctx.log('model/implementation disagree on %d %s case(s), first input: %r impl=%r' % (
                     len(idxs), k, recs[i][1], recs[i][2].v if isinstance(recs[i][2], OkV) else recs[i][2]))
-            ctx.failed_stages.append(('correspondence', 'Model.Rsp (configuration fixed) disagrees with %s on %d cases: %s'
+            ctx.failed_stages.append(('correspondence', 'Model.Rsp (configuration ' + CF + ') disagrees with %s on %d cases: %s'
                                       % (SRC, len(bad), ', '.join('%s x%d' % (k, len(v)) for k, v in kinds.items()))))
     # search oracle: cheap on every run, deep when something failed or tier is thorough
-    search_impl(ctx, rsp, (not ctx.quick()) or bool(ctx.failed_stages))
+    search_impl(ctx, rsp, (not ctx.quick()) or bool(ctx.failed_stages), flags)
     ctx.cov['exhaustive'] = False
 
 
 MANIFEST = {
-    'text': 'proof: Coq theorems over a hand model of ppci/binutils/dbg/gdb/rsp.py — for every ASCII payload and every '
+    'text': 'proof: 29 Coq theorems over a hand model of ppci/binutils/dbg/gdb/rsp.py — for every payload and every '
             'chunking of the byte stream the packet made by rsp_pack is recognised as exactly one message at its last byte, '
             'carrying the original payload with escapes undone, and answered "+"; packets with wrong or unparsable check '
             'digits are answered "-"; a "-" makes sendpkt retransmit; sendpkt equals the spec sender for every '
-            'acknowledgement sequence (at most 1+retries transmissions, an ACK within the budget succeeds) and the bound '
-            'holds on every schedule of the labelled transition system; an inductive invariant over all LTS traces gives '
-            'no loss / no duplication of incoming packets. The positive theorems hold for the code with the three '
-            'fixes/C35-*.diff applied; on ppci 1a712d0 three *_refuted theorems (with replayed witnesses) show the defects.',
+            'acknowledgement sequence (at most 1+retries transmissions, an ACK within the budget succeeds, retries <= 0 = one '
+            'transmission) and the bound holds on every schedule of the labelled transition system; an inductive invariant '
+            'over all LTS traces gives no loss / no duplication of incoming packets. Second round, for the code with '
+            'fixes/C35-ack-queue-full, -stale-ack, -decoder-non-ascii, -checksum-digits applied: the receiver thread never '
+            'dies for any byte stream (all byte values) and any schedule, acknowledgements that arrive while no send is '
+            'pending cannot complete a later send, only [0-9a-fA-F]{2} check digits are accepted and every packet-shaped '
+            'string that is not a well-formed packet is NAKed, framing and no-loss hold for arbitrary byte values. Each '
+            'repair is shown necessary by a *_refuted witness on the model without it; the witnesses are re-executed on the '
+            'implementation on every run (known findings until the four diffs are applied).',
     'note': 'trusted: Coq kernel; the hand model (checked against the real RspHandler on ~2000 generated inputs, byte '
-            'streams and interleaving traces per run, over a fake transport, plus exhaustive int(s,16) table); the '
-            'single-threaded replay harness; atomicity of LTS steps; timeouts as nondeterministic labels. Not modelled: OS '
-            'scheduling, sockets, queue.Queue internals, RLE in received packets. Liveness (receiver thread survival) is '
-            'modelled but not proved. No axioms.',
-    'technique': 'Coq proof over hand model (state machine + LTS) + differential trace replay',
+            'streams and interleaving traces per run, over a fake transport, plus the exhaustive int(s,16) table over '
+            '256x256 characters), with its configuration selected by probing the implementation; the single-threaded replay '
+            'harness; atomicity of LTS steps; timeouts as nondeterministic labels. The sender is ASCII-only by design. Not '
+            'modelled: OS scheduling, sockets, queue.Queue internals, RLE in received packets, unsequenced acks (protocol '
+            'limitation). No axioms.',
+    'technique': 'Coq proof over hand model (state machine + LTS, one switch per repair) + differential trace replay',
 }
